@@ -44,7 +44,11 @@ def new_result():
 
 def add_violation(res, case, what, sig=None):
     if len(res['violations']) < MAX_VIOL_PER_SHARD:
-        res['violations'].append({'case': case, 'what': what, 'sig': sig})
+        v = {'case': case, 'what': what, 'sig': sig}
+        prev = _track.get('prev') if '_track' in globals() else None
+        if prev is not None and _track.get('res') is res:
+            v['prev'] = prev            # the evaluation that ran just before this one in the same worker process
+        res['violations'].append(v)
     res['counters']['violations_raw'] += 1
 
 
@@ -100,6 +104,7 @@ def _on_alarm(signum, frame):
 
 
 def track(res, case, seconds=None):
+    _track['prev'] = _track.get('case') if _track.get('res') is res else None
     _track['res'] = res
     _track['case'] = case
     _track['seconds'] = seconds or HANG_S
@@ -108,7 +113,19 @@ def track(res, case, seconds=None):
 
 def untrack():
     signal.setitimer(signal.ITIMER_REAL, 0)
-    _track['res'] = _track['case'] = None
+    _track['res'] = _track['case'] = _track['prev'] = None
+
+
+def replay_after(mod, prev, case):
+    """Replay `case` right after `prev` on a freshly imported system under test: the verdict for behaviour that shows
+    only with the state an earlier evaluation left behind in the process."""
+    from . import sut
+    sut.load(fresh=True)
+    try:
+        mod.replay(unjson(jsonable(prev)))
+        return mod.replay(unjson(jsonable(case)))
+    finally:
+        sut.load(fresh=True)
 
 
 def guard(fn, seconds=None):
@@ -227,6 +244,17 @@ class Run:
                 except Exception:
                     failed.append(f'replay of {sig} raised:\n' + traceback.format_exc())
                     continue
+                if a is None and b is None and cand.get('prev') is not None and not getattr(self.mod, 'NO_HISTORY_REPLAY', False):
+                    # not reproducible on its own: does it depend on what the preceding evaluation left in the process?
+                    try:
+                        ha = guard(lambda: replay_after(self.mod, cand['prev'], cand['case']))
+                        hb = guard(lambda: replay_after(self.mod, cand['prev'], cand['case']))
+                    except Exception:
+                        ha = hb = None
+                    if ha is not None and ha == hb:
+                        cand = dict(cand, history=True)
+                        a = b = ('HISTORY-DEPENDENT: only after the evaluation ' + json.dumps(jsonable(cand['prev']))[:300] +
+                                 ' in the same process (fresh import before it): ' + ha)
                 if a is None or b is None or a != b:
                     failed.append(
                         f'violation {sig} did not reproduce identically on replay: explorer said {cand["what"]!r}; '
@@ -282,6 +310,7 @@ class Run:
         path = os.path.join(d, name)
         with open(path, 'w') as f:
             json.dump({'property': self.pid, 'signature': sig, 'what': what, 'explorer_said': v['what'],
+                       'prev': jsonable(v.get('prev')) if v.get('history') else None,
                        'cases_with_this_signature': ncases, 'tier': self.tier, 'seed': self.seed,
                        'case': jsonable(v['case']),
                        'replay_cmd': f'./check {self.pid} --replay {path}'}, f, indent=1, sort_keys=True)
